@@ -488,6 +488,27 @@ func (s *Sim) parkedCount() int {
 	return n
 }
 
+// PickFair applies the dice value k (0 <= k < len(parked)) under a weak fairness rule: a task that
+// only re-tests a busy-wait flag (it has spun at least twice since it last made progress) is not
+// chosen while a task that can make progress is parked - releasing it again cannot change the state.
+// livelock is true when every parked task is such a spinner and the chosen one has spun more than limit times.
+func PickFair(parked []*Task, k int, limit int) (t *Task, livelock bool) {
+	t = parked[k]
+	if !strings.HasPrefix(t.Site, "spin:") || t.Spins < 2 {
+		return t, false
+	}
+	var movers []*Task
+	for _, x := range parked {
+		if !strings.HasPrefix(x.Site, "spin:") || x.Spins < 2 {
+			movers = append(movers, x)
+		}
+	}
+	if len(movers) > 0 {
+		return movers[k%len(movers)], false
+	}
+	return t, t.Spins > limit
+}
+
 // noteChoice folds a decision into the schedule hash.
 func (s *Sim) noteChoice(n int, what string) {
 	if n >= 2 {
